@@ -745,7 +745,7 @@ def run(prop, tier, seed):
         bad, mism = {"C12": run_c12, "C13": run_c13, "C14": run_c14, "C20": run_c20}[prop](run_, rng, tier, exe)
         if prop in ("C12", "C13", "C14"):
             import wide
-            wb, wm = wide.wide_family(run_, exe, rng, 150 if tier == "quick" else 3000, prop=prop)
+            wb, wm = wide.wide_family(run_, exe, rng, 300 if tier == "quick" else 4000, prop=prop)
             bad += wb; mism += wm
     except CheckError as e:
         run_.violation("no-input", "build failed: %s" % e, dict(broken="build", detail=str(e)))
